@@ -77,8 +77,19 @@ class ComplexModel(object):
         def transition_choice(G, node, status, parameters):
             return nxt[status[node]]
 
+        form = self.case.get('infl_form', 'list')
+
         def get_influence_set(G, node, status, parameters):
-            return ball(adj, node, hops)
+            b = ball(adj, node, hops)
+            if form == 'tuple':
+                return tuple(b)
+            if form == 'iter':
+                return iter(b)              # e.g. G.neighbors(node) in the docstring's own example is a one-shot iterator
+            if form == 'generator':
+                return (x for x in b)
+            if form == 'dictkeys':
+                return dict.fromkeys(b).keys()
+            return b
         IC = dict(self.init)
         return EoN.Gillespie_complex_contagion(self.G, rate_function, transition_choice, get_influence_set, IC,
                                                self.ret if not full else self.statuses, tmin=self.tmin, tmax=self.tmax,
@@ -125,7 +136,7 @@ def prop_tree(case, walk=None, max_depth=10, max_levels=1500):
     fails, stats = steplaw.explore(model, 'Gillespie_complex_contagion', walk=walk, max_depth=max_depth,
                                    max_levels=max_levels, observe=observe)
     kinds = sorted(set(v[0] for v in model.rules.values()))
-    classes = ['rule:' + k for k in kinds] + ['hops%d' % model.hops] + (['tmax-inf'] if model.tmax == INF else ['tmax-finite'])
+    classes = ['rule:' + k for k in kinds] + ['hops%d' % model.hops, 'influence-set-as-' + case.get('infl_form', 'list')] + (['tmax-inf'] if model.tmax == INF else ['tmax-finite'])
     if flags['ended']:
         classes.append('ran-to-extinction-or-horizon')
     nt = flags['deep'] >= 2 and any(k != 'const' for k in kinds)
@@ -172,7 +183,8 @@ def model_case(draw):
     return {'gc': gc, 'statuses': names, 'rules': rules, 'next': nxt, 'IC': IC,
             'ret': list(draw(st.permutations(sub))), 'tmin': tmin,
             'tmax': draw(st.sampled_from(['inf', 'inf', tmin + 1.0, tmin + 2.25, tmin + 100])),
-            'walk': draw(st.lists(st.integers(0, 7), min_size=0, max_size=10))}
+            'walk': draw(st.lists(st.integers(0, 7), min_size=0, max_size=10)),
+            'infl_form': draw(st.sampled_from(['list', 'tuple', 'iter', 'generator', 'dictkeys']))}
 
 
 def canonical_cases(quick):
@@ -198,7 +210,8 @@ def canonical_cases(quick):
                     ics.append([statuses[-1 if len(statuses) == 2 else 1]] * 2 + [statuses[0]] * (n - 2))
                 for IC in ics:
                     for tmax in ('inf', 2.0):
-                        yield {'gc': {'nodes': list(range(n)), 'edges': edges, 'ew': None, 'nw': None},
+                        k_form = ['list', 'iter', 'generator', 'tuple'][(len(edges) + n + len(IC[0])) % 4]
+                        yield {'infl_form': k_form, 'gc': {'nodes': list(range(n)), 'edges': edges, 'ew': None, 'nw': None},
                                'statuses': statuses, 'rules': rules, 'next': nxt, 'IC': IC, 'ret': statuses,
                                'tmin': 0, 'tmax': tmax, 'depth': 5 if quick else 6}
 
@@ -218,7 +231,7 @@ def run(ctx):
                 'sum, new status == chooser, stop exactly when all rates are 0 or the horizon is reached, counts track statuses. '
                 'Non-trivial: >=2 events and a neighbour-dependent rule; distinct by case digest.' % (5 if quick else 6, '' if quick else ' and a sample of n=4'))
     ctx.assumptions = ['influence set covers the dependence radius of the rate function (property precondition)',
-                       'callbacks are pure and return ordered lists', 'chooser never returns the current status']
+                       'callbacks are pure; the influence set is returned as an ordered container or one-shot iterator (list, tuple, iterator, generator, dict keys)', 'chooser never returns the current status']
     only = getattr(ctx, 'only', None)
     if not only or 'canonical' in only:
         c01.run_exhaustive(ctx, 'canonical', canonical_cases(quick), 'eonverif.props.c15', 'tree_prop')
